@@ -99,7 +99,7 @@ func VerifRawRow(c *Collection, key string) (r VerifRow, err error) {
 	db := c.bucket.sqliteDB
 	c.bucket.mutex.Unlock()
 	var value, xattrs sql.RawBytes
-	rows, err := db.Query(`SELECT value, cas, exp, isJSON, xattrs, tombstone, revSeqNo FROM documents WHERE collection=?1 AND key=?2`, c.id, key)
+	rows, err := db.Query(`SELECT value, cas, exp, isJSON, xattrs, tombstone, revSeqNo, value IS NULL, xattrs IS NULL FROM documents WHERE collection=?1 AND key=?2`, c.id, key)
 	if err != nil {
 		return r, err
 	}
@@ -109,13 +109,12 @@ func VerifRawRow(c *Collection, key string) (r VerifRow, err error) {
 	}
 	var isJSON sql.NullBool
 	var exp sql.NullInt64
-	if err = rows.Scan(&value, &r.Cas, &exp, &isJSON, &xattrs, &r.Tombstone, &r.RevSeqNo); err != nil {
+	// (an empty TEXT scans into a nil RawBytes: NULL-ness is asked of SQLite, not inferred)
+	if err = rows.Scan(&value, &r.Cas, &exp, &isJSON, &xattrs, &r.Tombstone, &r.RevSeqNo, &r.ValueNull, &r.XattrsNil); err != nil {
 		return r, err
 	}
 	r.Found = true
-	r.ValueNull = value == nil
 	r.Value = append([]byte(nil), value...)
-	r.XattrsNil = xattrs == nil
 	r.Xattrs = append([]byte(nil), xattrs...)
 	r.IsJSON = isJSON.Bool
 	r.Exp = uint32(exp.Int64)
